@@ -416,17 +416,12 @@ func checkFreshState(c *core.Ctx, r *core.Report, mk *ssa.Function) {
 
 // concurrencyParamSources: the function takes `concurrency` as a parameter; every call site passes a
 // Concurrency field.
-func concurrencyParamSources(c *core.Ctx, fn *ssa.Function, r *core.Report) bool {
+func concurrencyParamSources(c *core.Ctx, fn *ssa.Function, prm *ssa.Parameter, r *core.Report) bool {
 	sites := an.CallSitesOf(c, fn)
-	if len(sites) == 0 {
+	if len(sites) == 0 || prm == nil || prm.Parent() != fn {
 		return false
 	}
-	idx := -1
-	for i, p := range fn.Params {
-		if p.Name() == "concurrency" {
-			idx = i
-		}
-	}
+	idx := an.ParamIndex(prm)
 	if idx < 0 {
 		return false
 	}
@@ -529,10 +524,32 @@ func freshStateRule(c *core.Ctx, r *core.Report, withCounts bool) {
 			}
 			m++
 			d := stripCaret(an.D().Of(call.Common().Args[1]))
-			okSrc := strings.HasSuffix(d, ".Concurrency") || strings.HasSuffix(d, "$concurrency") || d == "$concurrency"
-			if okSrc && d == "$concurrency" {
-				// a parameter: its call sites must pass a Concurrency field
-				okSrc = concurrencyParamSources(c, an.Outermost(fn), r)
+			okSrc := strings.HasSuffix(d, ".Concurrency")
+			// a parameter of the enclosing function (whatever it is called): its call sites must pass a Concurrency field
+			av := an.Strip(call.Common().Args[1])
+			for hop := 0; hop < 4; hop++ {
+				switch x := av.(type) {
+				case *ssa.UnOp:
+					if x.Op == token.MUL {
+						av = x.X
+						continue
+					}
+				case *ssa.FreeVar:
+					if b := an.FreeVarBinding(x); b != nil {
+						av = b
+						continue
+					}
+				case *ssa.Alloc:
+					// a captured parameter lives in a cell holding it
+					if sts := an.StoresTo(x); len(sts) == 1 {
+						av = an.Strip(sts[0].Val)
+						continue
+					}
+				}
+				break
+			}
+			if prm, isParam := av.(*ssa.Parameter); isParam && !okSrc {
+				okSrc = concurrencyParamSources(c, prm.Parent(), prm, r)
 			}
 			r.Check(okSrc, core.FuncName(fn)+"#"+t.Name()+"-count", an.Pos(c, call), "worker count is "+d, "pool created with "+d+" workers, not the configured concurrency")
 		}
